@@ -13,3 +13,10 @@ for _w in ("manifest", "list"):
 
 from contracts import helpers as _HC  # noqa: E402
 _HC.register_under("C07", ["COUNT/recorded_manifest_count", "COUNT/expected_entry_count", "COUNT/_check_count"])
+
+# the collector computes reachability from MetadataManager.refresh(): it must be the CURRENT version or an error
+from contracts import readpath as _rpr  # noqa: E402
+from pyvc.runner import Unit as _U2, register as _r2  # noqa: E402
+for _n, _hf, _fs in _rpr.REFRESH_UNITS:
+    if "refresh-exact" in _n:
+        _r2(_U2("C07", _n, _hf, functions=_fs, replay=None))
